@@ -5,7 +5,7 @@
    emits (forM2_ for `for x, y in zip(xs, ys)`) with the lemmas the tie tactic uses to bring loops of assertions to
    the forallb / forall2b form of Model/Close.v, and extensionality of the loop combinators (a respelt loop body). *)
 From Coq Require Import Bool List String Arith.
-From Demes Require Import Base.Num Base.Py Model.MDM Model.Close Model.Resolve Proofs.ResolveInv.
+From Demes Require Import Base.Num Base.Py Model.MDM Model.Close Model.Resolve Model.Rename Spec.Valid Proofs.ResolveInv.
 Import ListNotations.
 Local Open Scope string_scope.
 Local Open Scope list_scope.
@@ -67,8 +67,42 @@ Proof.
   rewrite (H a (or_introl eq_refl)). cbn. apply IH. intros x Hx. apply H. now right.
 Qed.
 
+(* `k in d` on a Python dict modelled as an insertion-ordered association list (Model/MDM.v assoc: first binding wins;
+   a dict has unique keys, so the list stands for the dict's items in insertion order) *)
+Definition mem_key {A} (k : string) (d : list (string * A)) : bool :=
+  match assoc k d with Some _ => true | None => false end.
+
+(* `d[k] if k in d else x`, which the translator spells `match assoc k d with Some v => v | None => x end`, is this *)
+Lemma mem_key_assoc {A} k (d : list (string * A)) (x : A) :
+  match assoc k d with Some v => v | None => x end
+  = if mem_key k d then match assoc k d with Some v => v | None => x end else x.
+Proof. unfold mem_key. destruct (assoc k d); reflexivity. Qed.
+
+(* an update loop whose body raises nothing is a map *)
+Lemma mapM_pure {A B} (f : A -> B) l : mapM (fun x => Ok (f x)) l = Ok (map f l).
+Proof. induction l as [|a l IH]; cbn; [reflexivity|]. rewrite IH. reflexivity. Qed.
+
+(* a statement that returns None, followed by falling off the end of the loop body *)
+Lemma bind_unit_ret (m : res unit) : (m ;;; Ok tt) = m.
+Proof. destruct m as [[]|e]; reflexivity. Qed.
+
+(* valid_deme_name(self, attribute, value) (demes/demes.py), which the model inlines where it validates a name
+   (Model/Resolve.v deme_name_of, Model/Rename.v rename_demes) *)
+Definition valid_deme_name (value : string) : res unit := raise_if (negb (is_identifier value)) ValueErr.
+
 Section FunSites.
   Context {N : NumOps}.
+
+  Lemma deme_name_of_valid v : deme_name_of v = (s <- str_of v ;; valid_deme_name s ;;; Ok s).
+  Proof. reflexivity. Qed.
+
+  (* the model of Graph.rename_demes validates the names with the same validator, deme by deme *)
+  Lemma rename_demes_valid names g :
+    rename_demes names g =
+      (forM_ (fun d => valid_deme_name (d_name d)) (g_demes (rename_core names g)) ;;;
+       raise_if (negb (Nat.eqb (List.length (g_index (rename_core names g))) (List.length (g_demes (rename_core names g))))) ValueErr ;;;
+       Ok (rename_core names g)).
+  Proof. reflexivity. Qed.
 
   (* Epoch.__attrs_post_init__ *)
   Definition epoch_post_init (e : epoch) : res unit :=
